@@ -46,7 +46,13 @@ trait impls of `Peers` (`impl ChainAdapter for Peers`: block_received, transacti
 `self.adapter.op(..)` = `NetToChainAdapter::op`, inlined.  A stored closure that locks is accepted when it releases
 everything it takes and is emitted where it is written.  Still a `!callback` mark: calls on a `Peer`
 (send_* = the `send_handle` Mutex and the connection's channels).
-NOT covered: api/ handlers (they take `tx_pool.read()/write()` through a Weak and call the same
+Increment 3: api/src/handlers/*.rs (`w(&self.chain)?.op(..)`, `let pool = w(&self.tx_pool)?.read()` … = plain
+references / acquisitions; entries `api::<Handler>::<fn>`), servers/src/mining/stratumserver.rs (`Stratum::…`:
+`current_state` = stratumState held ACROSS `chain.process_block` in handle_submit and across `mine_block::get_block`
+in run; WorkersList locks), mining/test_miner.rs (`Miner::run_loop`), p2p/src/peer.rs (`Peer::…`: state, send_handle,
+stop_handle Mutexes; `TrackingAdapter::…` = what a connection thread calls, resolved to `Peers::…` ->
+`NetToChainAdapter::…`); a call `p.op(..)` / `peer.op(..)` / `sync_peer.op(..)` is `Peer::op` when that exists.
+NOT covered: api/src/{foreign,owner}.rs wrappers (they build the handlers above and call them), api/ handlers (they take `tx_pool.read()/write()` through a Weak and call the same
 TransactionPool methods; shapes `w(&self.tx_pool)?.read()` are not translated), servers/src/grin/sync/*
 (they call chain ops and SyncState methods one after the other, holding nothing of their own except the
 desegmenter guard, which the chain-level table already wraps around every Desegmenter entry), stratum.
@@ -68,12 +74,25 @@ NODE_LOCK_FIELDS = {
     ("SyncState", "requested_pibd_segments"): "syncSegs",
     ("Peers", "peers"): "p2pPeers",
     ("Peers", "blocked"): "p2pBlocked",
+    ("Handler", "current_state"): "stratumState",
+    ("WorkersList", "workers_list"): "stratumWorkers",
+    ("WorkersList", "stratum_stats"): "stratumStats",
+    ("StratumServer", "stratum_stats"): "stratumStats",
+    ("Peer", "state"): "peerState",
+    ("Peer", "send_handle"): "peerSend",
+    ("Peer", "stop_handle"): "peerStop",
+    ("TrackingAdapter", "received"): "peerTrack",
+    ("TrackingAdapter", "requested"): "peerTrack",
 }
+# impls whose field `chain` is the Arc<Chain> (self.chain.op(..)) / whose field `peers` is the Arc<Peers>
+CHAIN_FIELD_IMPLS = ("StateSync", "HeaderSync", "BodySync", "SyncRunner", "Handler", "StratumServer", "Miner")
+# identifiers that name a `Peer` in the translated files (closure parameters / locals), for `IDENT.send_*(..)` etc.
+PEER_IDENTS = ("p", "peer", "sync_peer")
 SYNC_IMPLS = ("StateSync", "HeaderSync", "BodySync", "SyncRunner")
 TIMED = ("try_read_for", "try_write_for", "try_read", "try_write")
 # per-peer leaf data locks of the p2p crate reached through a field chain ending in one of these names
 PEER_DATA_LOCKS = ("live_info", "received_bytes", "sent_bytes")
-NODE_SUBOBJECTS = {("TransactionPool", "txpool"): "Pool", ("TransactionPool", "stempool"): "Pool"}
+NODE_SUBOBJECTS = {("TransactionPool", "txpool"): "Pool", ("TransactionPool", "stempool"): "Pool", ("Handler", "workers"): "WorkersList"}
 # field -> impl whose method of the same name is what runs (the concrete types servers/ instantiates)
 DISPATCH_FIELDS = {
     ("TransactionPool", "blockchain"): "PoolToChainAdapter",
@@ -85,13 +104,15 @@ DISPATCH_FIELDS = {
     ("BodySync", "sync_state"): "SyncState",
     ("SyncRunner", "sync_state"): "SyncState",
     ("Peers", "adapter"): "NetToChainAdapter",
+    ("TrackingAdapter", "adapter"): "Peers",
 }
 # identifiers (parameters / locals, not preceded by `.`) standing for a lock or an object
-IDENT_LOCKS = {"tx_pool": "pool", "header_pmmr": "hp", "txhashset": "ts", "desegmenter": "deseg"}
+IDENT_LOCKS = {"tx_pool": "pool", "pool_arc": "pool", "pool": "pool", "header_pmmr": "hp", "txhashset": "ts", "desegmenter": "deseg"}
 IDENT_OBJECTS = {"adapter": "PoolToNetAdapter"}
 GUARD_OBJECT = {"pool": "TransactionPool"}
 CHAIN_LOCKS = ("orph", "hidx", "segm", "deseg", "hp", "ts", "batch", "deny")
-NODE_LOCKS = ("pool", "reorg", "dand", "secp", "syncCur", "syncErr", "syncSegs", "p2pPeers", "p2pBlocked", "p2pPeerData")
+NODE_LOCKS = ("pool", "reorg", "dand", "secp", "syncCur", "syncErr", "syncSegs", "p2pPeers", "p2pBlocked", "p2pPeerData",
+              "stratumState", "stratumWorkers", "stratumStats", "peerState", "peerSend", "peerStop", "peerTrack")
 ARC_GETTERS = ("header_pmmr", "txhashset", "store")
 
 FILES = [
@@ -106,6 +127,17 @@ FILES = [
     "servers/src/grin/sync/body_sync.rs",
     "servers/src/grin/sync/syncer.rs",
     "p2p/src/peers.rs",
+    "p2p/src/peer.rs",
+    "servers/src/mining/stratumserver.rs",
+    "servers/src/mining/test_miner.rs",
+    "api/src/handlers/utils.rs",
+    "api/src/handlers/blocks_api.rs",
+    "api/src/handlers/chain_api.rs",
+    "api/src/handlers/pool_api.rs",
+    "api/src/handlers/server_api.rs",
+    "api/src/handlers/transactions_api.rs",
+    "api/src/handlers/peers_api.rs",
+    "api/src/handlers/version_api.rs",
 ]
 
 
@@ -159,6 +191,17 @@ class NodeTranslator(G.Translator):
                 and is_id(at(items, i + 4)) and items[i + 4].text in TIMED and is_grp(at(items, i + 5), "(") \
                 and (impl, items[i + 2].text) in self.lock_fields:
             return (self.lock_fields[(impl, items[i + 2].text)], "R" if "read" in items[i + 4].text else "W", 6)
+        # self.workers.FIELD.read()/write() (stratum: Handler.workers is the WorkersList)
+        if is_id(t, "self") and is_p(at(items, i + 1), ".") and is_id(at(items, i + 2), "workers") and is_p(at(items, i + 3), ".") \
+                and is_id(at(items, i + 4)) and is_p(at(items, i + 5), ".") and is_id(at(items, i + 6)) \
+                and items[i + 6].text in ("read", "write") and is_grp(at(items, i + 7), "(") and not items[i + 7].items \
+                and ("WorkersList", items[i + 4].text) in self.lock_fields:
+            return (self.lock_fields[("WorkersList", items[i + 4].text)], "R" if items[i + 6].text == "read" else "W", 8)
+        # self.FIELD.lock() on a Mutex field of the alphabet (Peer.send_handle / stop_handle)
+        if is_id(t, "self") and is_p(at(items, i + 1), ".") and is_id(at(items, i + 2)) and is_p(at(items, i + 3), ".") \
+                and is_id(at(items, i + 4)) and items[i + 4].text in ("lock", "try_lock") and is_grp(at(items, i + 5), "(") and not items[i + 5].items \
+                and (impl, items[i + 2].text) in self.lock_fields:
+            return (self.lock_fields[(impl, items[i + 2].text)], "W", 6)
         # ….live_info.read() / .received_bytes.read() / .sent_bytes.read(): per-peer data locks of p2p (leaves)
         if t is not None and t.kind == "id" and t.text in PEER_DATA_LOCKS and is_p(at(items, i - 1), ".") \
                 and is_p(at(items, i + 1), ".") and is_id(at(items, i + 2)) and items[i + 2].text in ("read", "write") \
@@ -205,7 +248,7 @@ class NodeTranslator(G.Translator):
                 return 4 + self.chain_call(items, i + 4, ctx)
             return 4
         # ---- self.chain.NAME(args) / self.peers.NAME(args) in the sync runners (fields, not getters)
-        if impl in SYNC_IMPLS and is_id(t, "self") and is_p(at(items, i + 1), ".") and is_id(at(items, i + 2)) \
+        if impl in CHAIN_FIELD_IMPLS and is_id(t, "self") and is_p(at(items, i + 1), ".") and is_id(at(items, i + 2)) \
                 and items[i + 2].text in ("chain", "peers") and is_p(at(items, i + 3), ".") and is_id(at(items, i + 4)) \
                 and is_grp(at(items, i + 5), "("):
             name = items[i + 4].text
@@ -215,8 +258,37 @@ class NodeTranslator(G.Translator):
                 self.p2p_call(ctx, name, items[i + 5], t.line)
                 return 6
             return 3 + self.chain_call(items, i + 3, ctx)
+        # ---- api handlers: w(&self.chain)?.op(..) / w(&self.sync_state)?.op(..) / w(&self.peers)?.op(..) / w(chain)?.op(..)
+        # (`w` upgrades the Weak: a plain reference for the lock order)
+        if is_id(t, "w") and not is_p(prev, ".") and is_grp(at(items, i + 1), "(") and is_p(at(items, i + 2), "?") \
+                and is_p(at(items, i + 3), ".") and is_id(at(items, i + 4)) and is_grp(at(items, i + 5), "("):
+            inner = [x.text for x in items[i + 1].items if x.kind == "id"]
+            target = inner[-1] if inner else ""
+            if target == "chain":
+                return 3 + self.chain_call(items, i + 3, ctx)
+            if target == "sync_state":
+                self.walk(items[i + 5].items, ctx)
+                self.call_method(ctx, "SyncState", items[i + 4].text, None, t.line, must=True)
+                self.rec["dispatch"] += 1
+                return 6
+            if target == "peers":
+                self.p2p_call(ctx, items[i + 4].text, items[i + 5], t.line)
+                return 6
+        # ---- mine_block::get_block(chain, tx_pool, ..) from the stratum server / the test miner
+        if is_id(t, "mine_block") and is_p(at(items, i + 1), "::") and is_id(at(items, i + 2), "get_block") and is_grp(at(items, i + 3), "("):
+            self.walk(items[i + 3].items, ctx)
+            self.inline(ctx, (None, "get_block"), t.line)
+            return 4
+        # ---- a call on a `Peer` (closure parameter / local named p / peer / sync_peer): Peer::NAME when it exists
+        if t.kind == "id" and t.text in PEER_IDENTS and not is_p(prev, ".") and not is_p(prev, "::") and is_p(at(items, i + 1), ".") \
+                and is_id(at(items, i + 2)) and is_grp(at(items, i + 3), "(") and ("Peer", items[i + 2].text) in self.fns \
+                and self.fns[("Peer", items[i + 2].text)].has_self and self.guard_lock_of(ctx, t.text) is None:
+            self.walk(items[i + 3].items, ctx)
+            self.inline(ctx, ("Peer", items[i + 2].text), t.line)
+            self.rec["peer-call"] = self.rec.get("peer-call", 0) + 1
+            return 4
         # ---- chain.NAME(args): `chain` a parameter (mine_block.rs)
-        if is_id(t, "chain") and "chain" in ctx.get("params", ()) and not is_p(prev, ".") and not is_p(prev, "::") \
+        if is_id(t, "chain") and ("chain" in ctx.get("params", ()) or (impl or "").endswith("Handler") and impl != "Handler") and not is_p(prev, ".") and not is_p(prev, "::") \
                 and is_p(at(items, i + 1), ".") and is_id(at(items, i + 2)) and is_grp(at(items, i + 3), "("):
             return 1 + self.chain_call(items, i + 1, ctx)
         # ---- direct pool lock call followed by a method: self.tx_pool.read().NAME(args)
@@ -426,8 +498,9 @@ def generate(repo_root, die):
             if ("RwLock" in ty or "Mutex" in ty) and (sname, f) not in NODE_LOCK_FIELDS:
                 die(f"gen_locks_node: {sname}.{f} : {ty} is a lock that is not in the node alphabet")
     for (s, f) in NODE_LOCK_FIELDS:
-        if "RwLock" not in tr.structs.get(s, {}).get(f, ""):
-            die(f"gen_locks_node: expected lock field {s}.{f} : RwLock is gone")
+        ty = tr.structs.get(s, {}).get(f, "")
+        if "RwLock" not in ty and "Mutex" not in ty:
+            die(f"gen_locks_node: expected lock field {s}.{f} : RwLock / Mutex is gone")
     for (s, f), target in DISPATCH_FIELDS.items():
         ty = tr.structs.get(s, {}).get(f)
         if ty is None: die(f"gen_locks_node: {s}.{f} is gone")
@@ -445,6 +518,12 @@ def generate(repo_root, die):
             roots.append((impl + "::" + name, (impl, name)))
         elif impl in SYNC_IMPLS and fd.has_self and (fd.pub or name in ("sync_loop", "continue_pibd", "body_sync", "header_sync")):
             roots.append((impl + "::" + name, (impl, name)))
+        elif impl in ("Peer", "TrackingAdapter", "Handler", "WorkersList", "StratumServer", "Miner") and fd.has_self:
+            roots.append((("Stratum" if impl == "Handler" else impl) + "::" + name, (impl, name)))
+        elif impl is not None and impl.endswith("Handler") and impl != "Handler" and fd.has_self:
+            roots.append(("api::" + impl + "::" + name, (impl, name)))
+        elif impl is None and name in ("get_output", "get_output_v2", "update_pool"):
+            roots.append(("api::" + name, (None, name)))
         elif impl == "Peers" and fd.has_self:
             roots.append((impl + "::" + name, (impl, name)))
         elif impl is None and name in ("get_block", "build_block", "monitor_transactions", "process_fluff_phase",
@@ -481,9 +560,13 @@ def generate(repo_root, die):
     for n, evs in table:
         L.append(f"  {n}: {show(evs) or '(lock-free)'}")
     L += ["-/", "namespace GV.Gen", "open GV.Conc", "",
-          "def nodeTable : List (String × List (Ev NLock)) := ["]
-    L.append(",\n".join(f"  (\"{n}\", [{', '.join(lean_ev(e) for e in evs)}])" for n, evs in table))
-    L += ["]", "",
+          "/-! the node table in four chunks (kernel evaluation is decided per chunk) -/"]
+    q = (len(table) + 3) // 4
+    for ci in range(4):
+        L.append(f"def nodeTable{ci + 1} : List (String × List (Ev NLock)) := [")
+        L.append(",\n".join(f"  (\"{n}\", [{', '.join(lean_ev(e) for e in evs)}])" for n, evs in table[ci * q:(ci + 1) * q]))
+        L += ["]", ""]
+    L += ["def nodeTable : List (String × List (Ev NLock)) := nodeTable1 ++ nodeTable2 ++ nodeTable3 ++ nodeTable4", "",
           "/-- every entry of the chain-level table (Gen/Locks.lean) as it runs inside a node: `!callback` =",
           "ChainToPoolAndNetAdapter::block_accepted, `!status` = SyncState::update (threads of servers/src/grin/sync and",
           "the api call these directly) -/",
